@@ -13,6 +13,8 @@
 (*     exact rationals <<num, den>>.                                         *)
 (*     One action per step of the implementation:                            *)
 (*       Batch(ws, us)  single_sampling2 / interp_sample_once on one batch   *)
+(*                      ws = effective weights amp / importance_f (Eff), the  *)
+(*                      quantity the bound and the acceptance refer to        *)
 (*                      (local bound raised when exceeded, first-batch rule) *)
 (*       Thin(us)       earlier events kept with probability old/new        *)
 (*       Truncate       merge and cut to N                                   *)
@@ -27,7 +29,8 @@ EXTENDS Integers, Sequences, FiniteSets, TLC, SequencesExt
 CONSTANTS
     Variant,     \* "multi" | "interp"
     NSet,        \* requested sample sizes N
-    MaxW,        \* weights range over 0..MaxW
+    MaxW,        \* amplitudes (amp(data)) range over 0..MaxW
+    ImpNums, ImpDen, \* importance values importance_f(data) = k/ImpDen, k \in ImpNums ({ImpDen} = no importance_f)
     MaxLen,      \* largest batch (number of proposals)
     MaxBatches,  \* bound of the exploration (batches per behaviour)
     UNums, UDen, \* random numbers u = k/UDen, k \in UNums
@@ -75,7 +78,11 @@ RMax(a, b) == IF RLt(a, b) THEN b ELSE a
 One == <<1, 1>>
 
 UGrid == {RNorm(<<k, UDen>>) : k \in UNums}
-MaxOf(ws) == LET S == {ws[i] : i \in DOMAIN ws} IN CHOOSE m \in S : \A x \in S : x <= m
+\* largest element of a sequence of rationals
+MaxOf(ws) == LET S == {ws[i] : i \in DOMAIN ws} IN CHOOSE m \in S : \A x \in S : RLe(x, m)
+ImpSet == {RNorm(<<k, ImpDen>>) : k \in ImpNums}
+\* single_sampling2: weight = amp(data) / importance_f(data), an exact rational per event
+Eff(as, ims) == [i \in DOMAIN as |-> RDiv(RInt(as[i]), ims[i])]
 Sorted(S) == SetToSortSeq(S, LAMBDA a, b : a < b)
 
 (* the constants of the two implementations                                  *)
@@ -86,13 +93,13 @@ AfterThinF == IF Variant = "multi" THEN <<21, 20>> ELSE One             \* max_w
 
 (* local bound a batch is accepted with                                      *)
 LocalBound(ws) ==
-    LET wmax == RInt(MaxOf(ws)) IN
+    LET wmax == MaxOf(ws) IN                                            \* tf.reduce_max(weight), AFTER the division
     IF ~hasB THEN RMul(FirstLocalF, wmax)
     ELSE IF Variant = "multi"
          THEN (IF RLt(bound, wmax) THEN RMul(RaiseF, wmax) ELSE bound)   \* max_weight < new_max_weight
          ELSE RMax(RMul(RaiseF, wmax), bound)                            \* max(np.max(w) * 1.01, max_rnd)
 
-Accepted(ws, us, b) == {i \in DOMAIN ws : RLt(RMul(us[i], b), RInt(ws[i]))}   \* rnd * max_weight < weight
+Accepted(ws, us, b) == {i \in DOMAIN ws : RLt(RMul(us[i], b), ws[i])}   \* rnd * max_weight < weight
 
 (* Thin: multi   cut = rnd * new / old < 1 ;  interp   cut = rnd > 1 - old / new *)
 Kept(u, old, new) ==
@@ -124,7 +131,7 @@ NewEvents(ws, acc, b) ==
 BatchG(ws, us, local, stored) ==
     /\ pc = "loop" /\ ngen < arN /\ nb < MaxBatches
     /\ Len(ws) >= 1 /\ Len(us) = Len(ws)
-    /\ RLe(RInt(MaxOf(ws)), local)                 \* accepted under a bound >= every weight of the batch
+    /\ RLe(MaxOf(ws), local)                       \* accepted under a bound >= every effective weight of the batch
     /\ (hasB => stored = bound)                    \* a stored bound changes only through a thinning
     /\ (~hasB => RLe(local, stored))               \* a fresh stored bound covers its batch
     /\ LET acc == Accepted(ws, us, local)
@@ -174,16 +181,18 @@ Truncate ==
     /\ UNCHANGED <<arN, hasB, bound, evs, ngen, nb, pend, loc>>
     /\ UNCHANGED phVars
 
-BatchStep == \E L \in 1..MaxLen : \E ws \in [1..L -> 0..MaxW], us \in [1..L -> UGrid] : Batch(ws, us)
+BatchStep == \E L \in 1..MaxLen : \E as \in [1..L -> 0..MaxW], ims \in [1..L -> ImpSet], us \in [1..L -> UGrid] :
+                 Batch(Eff(as, ims), us)
 ThinStep == pc = "thin" /\ \E us \in [1..Len(evs) -> UGrid] : Thin(us)
 NextAR == BatchStep \/ ThinStep \/ Truncate
 
 \* exploration of the general actions: a few admissible choices of the bounds per batch
-LocalChoices(ws) == LET wmax == RInt(MaxOf(ws))
+LocalChoices(ws) == LET wmax == MaxOf(ws)
                     IN {wmax, RMul(RaiseF, wmax), RMul(<<2, 1>>, wmax)} \cup (IF hasB /\ RLe(wmax, bound) THEN {bound} ELSE {})
 StoredChoices(local) == IF hasB THEN {bound} ELSE {local, RMul(FirstStoreF, local), RMul(<<3, 1>>, local)}
-BatchGStep == \E L \in 1..MaxLen : \E ws \in [1..L -> 0..MaxW], us \in [1..L -> UGrid] :
-                 \E local \in LocalChoices(ws) : \E stored \in StoredChoices(local) : BatchG(ws, us, local, stored)
+BatchGStep == \E L \in 1..MaxLen : \E as \in [1..L -> 0..MaxW], ims \in [1..L -> ImpSet], us \in [1..L -> UGrid] :
+                 \E local \in LocalChoices(Eff(as, ims)) : \E stored \in StoredChoices(local) :
+                     BatchG(Eff(as, ims), us, local, stored)
 ThinGStep == pc = "thin" /\ \E us \in [1..Len(evs) -> UGrid] :
                  \E ns \in {loc, RMul(AfterThinF, loc), RMul(<<2, 1>>, loc)} : ThinG(us, ns)
 NextARG == BatchGStep \/ ThinGStep \/ Truncate
@@ -193,7 +202,8 @@ ArTypeOK == /\ pc \in {"loop", "thin", "merge", "done", "off"}
             /\ bound[2] > 0 /\ loc[2] > 0
 \* every alive event was accepted under (and still carries) a bound >= its weight,
 \* i.e. its acceptance probability w / bd is a probability
-BoundGeWeight == \A e \in ToSet(evs) \cup ToSet(pend) : RLe(RInt(e.w), e.bd) /\ e.w > 0
+\* (e.w is the effective weight amp / importance of the event)
+BoundGeWeight == \A e \in ToSet(evs) \cup ToSet(pend) : RLe(e.w, e.bd) /\ RLt(<<0, 1>>, e.w)
 \* within a batch the acceptance probability is proportional to the weight
 Proportional == \A e1, e2 \in ToSet(evs) \cup ToSet(pend) : e1.k = e2.k => e1.bd = e2.bd
 \* thinning only ever lowers the acceptance probability (it is a probability itself)
